@@ -1586,9 +1586,13 @@ TYPE_NAMES = {"int", "float", "bool", "str", "list", "tuple", "dict", "set", "ob
               "Mapping", "MutableMapping", "Sequence", "deque", "OrderedDict", "frozenset"}
 
 
-def builtin_name(name):
+def builtin_name(name, I=None):
     if name in TYPE_NAMES:
         return VClass(name)
+    if name == "open" and I is not None:
+        from . import externals as X0
+        if X0._uses_fsmodel(I.ver):
+            return VFunc("builtin", name, impl=BUILTIN_FUNCS[name])
     if name in JM.SPEC_FUNCS:
         return VFunc("builtin", name, impl=JM.SPEC_FUNCS[name])
     from . import externals as X
